@@ -17,6 +17,9 @@ CHECKS = {
  "C01": ("other", "symbolic sequence algebra over go/ssa (header values as concatenations of segments of the header found + single values) compared with list-operation specifications by linear entailment; loop-shape recognisers with inductive linear invariants (conserved sum, counting) for Reverse/Remove/Push; slot-0 provenance; wrapper argument/result forwarding", "DESIGN.md §3 R-SEQ/R-SLOT0, §4 C01",
    "Every mutator (pop, insert, reset, replace, swap, reverse, remove, both push loops) is proved, for all inputs, to perform exactly the list operation the property names on the header it finds - which element is removed/returned under LIFO and FIFO, where Insert lands (clamped), which slots Swap/Replace touch, that Reverse exchanges all and only mirror pairs, that Remove keeps every slot but the addressed one in order, that Push appends in argument order - and stack.index is proved to translate positions exactly (i -> slot i+1, -k -> len-k, oversize -> last). The configuration slot can never be lost, moved or overwritten. By induction over a history, the content is that of the ordered list.",
    "Level other: hand-written recognisers and specifications; Front/Back's nil-skipping scan, success flags for nil elements, capacity (C03) and concurrency (C10) are outside."),
+ "C02": ("other", "value-flow and path-fact checks on the rendering functions (receiver provenance of kind/symbol/rendering readings, guard facts at the NOT-prefix concatenation, gated appends feeding the assembler, rune-wise copy in the blank condenser, loop direction of the encapsulation, parenthesis decision table) on go/ssa", "DESIGN.md §3 R-UTF8/R-FLAGS/R-TT, §4 C02",
+   "A nested stack is rendered through its own kind/symbol/case and an empty one contributes nothing (no dangling NOT); renderings that are empty never reach the join; leaf text is copied rune by rune with only blank/tab runs condensed; encapsulation pairs are applied so that the first is outermost; parentheses iff parenthetical and not BASIC.",
+   "Necessary conditions (level other): equality with the canonical rendering over all trees and option combinations is not decided."),
  "C03": ("other", "inductive invariant over all slice-header stores of the package (enumerated from go/ssa): slot-0 provenance analysis + linear-arithmetic entailment (Fourier-Motzkin) of len <= capacity from path guards under the induction hypothesis; who-may-write check on the capacity word; return-case equations for the observers", "DESIGN.md §3 R-CAP/R-CAPEQ/R-SLOT0, §4 C03",
    "INV: capacity word == 0 or len(header) <= capacity word, for every header any stack ever holds. Base: newStack (word = request+1, backing array made with it). Frame: the word is written nowhere else, slot 0 always keeps the same configuration (provenance of every stored header; element stores/bulk copies use slots >= 1). Step: each of the 10 header stores of the package keeps INV on every path (linear entailment from isFull()==false on the very header extended / Insert's guard). Observers Len/Cap/Avail/IsFull/isFull are proved equal to their linear forms, which gives Cap()==k, Avail()==k-Len(), IsFull()==(Len()==k), -1/-1/false without capacity, and Len() <= k for all sequential histories of any calls.",
    "Level other: hand-written domains; which surplus values are dropped (order) is not decided; Defrag's truncation inherits the range assumption of C08; concurrency is C10."),
